@@ -6,6 +6,7 @@
 
 mod proto;
 mod frame;
+mod cmd;
 mod tags;
 mod util;
 
@@ -29,6 +30,7 @@ const FAMILIES: &[Family] = &[
     Family { name: "tags", gen: tags::gen, exec: tags::exec },
     Family { name: "proto", gen: proto::gen, exec: proto::exec },
     Family { name: "frame", gen: frame::gen, exec: frame::exec },
+    Family { name: "cmd", gen: cmd::gen, exec: cmd::exec },
 ];
 
 fn main() {
